@@ -128,6 +128,7 @@ class Balance(object):
         self.tokens = set(tokens)
         self.special = special or {}
         self.trusted_neutral = set(trusted_neutral)
+        self.lock2_same = False     # analysed world for LOCK2/UNLOCK2: False = the two locks are distinct objects, True = they are the same object
         self.summ = {}
         self.by_unit = collections.defaultdict(dict)
         for f in P.all_fns:
@@ -639,7 +640,7 @@ class Balance(object):
             a, b = strip(c[2]), strip(c[3])
             if a[2] == "local" and b[2] == "local" and a[1].endswith("_tmplock_") and b[1].endswith("_tmplock_"):
                 differ = t if c[1] == "!=" else not t
-                if not differ:
+                if differ == self.lock2_same:
                     return None
                 return facts
         # (3) return-value facts
